@@ -85,6 +85,8 @@ def variants(cls, base, schema, types, mins, rnd):
                 vals.append(("length-decoded-at-limit", "accept", "&amp;" + "x" * (t["len"] - 1)))
             over = "accept" if t["k"] == "nag" else "reject"
             vals.append(("length-over-limit-with-entity", over, "&amp;" + "x" * t["len"]))
+            # (the limit counts characters as they are: a base letter and its combining mark are two)
+            vals.append(("length-over-limit-combining-marks", over, "x" * max(t["len"] - 1, 0) + "e\u0301" + ("e\u0301" if t["len"] > 1 else "")))
             vals.append(("length-over-limit-with-ampersand", over, "x" * t["len"] + "&"))
             vals.append(("length-over-limit-with-lt-entity", over, "x" * t["len"] + "&lt;"))
         elif t["k"] == "int" and t["len"] != -1:
@@ -277,6 +279,14 @@ def run(ctx):
             tries.append(("bare-string-list-member", members + ["x"], kwargs))
         elif not schema[cls]["elementlist"]:
             tries.append(("list-member-where-none-declared", members + [dc.build_kw(mins["STATUS"], schema)], kwargs))
+        # a number over the digit limit passed as a Python value of another numeric type
+        import decimal as _dec
+        for a in attrs:
+            if a["k"] == "elem" and a["a"] in kwargs and types[int(a["ty"][1:])]["k"] == "int" and types[int(a["ty"][1:])]["len"] != -1:
+                n_ = types[int(a["ty"][1:])]["len"]
+                for lab_, val_ in (("decimal", _dec.Decimal(10 ** n_)), ("float", float(10 ** n_)), ("negative-decimal", _dec.Decimal(-(10 ** n_)))):
+                    tries.append(("over-limit-integer-as-%s %s" % (lab_, a["a"]), members, dict(kwargs, **{a["a"]: val_})))
+                break
         for lab, ar, kw in tries:
             ctx.evaluations += 1
             ctx.nontrivial.add((cls, lab, "kw"))
